@@ -110,6 +110,18 @@ def _clim_inputs():
     return ClimateNetwork(families._grid(), S, threshold=0.4, silence_level=3), {"similarity_measure": S}
 
 
+def _geo_inputs():
+    """GeoNetwork on caller-owned coordinates (no node on the equator / zero meridian) with a link attribute."""
+    from pyunicorn.core import GeoGrid, GeoNetwork
+    lat, lon = V(np.linspace(-40.0, 75.0, 6)), V(np.linspace(20.0, 140.0, 6))
+    tseq = V(np.arange(10.0))
+    A = V(families.ADJ[False][1])
+    la = V(_la())
+    net = GeoNetwork(GeoGrid(tseq, lat, lon, silence_level=3), adjacency=A, node_weight_type="surface", silence_level=3)
+    net.set_link_attribute("w", la)
+    return net, {"lat": lat, "lon": lon, "time_seq": tseq, "adjacency": A, "link_attribute": la}
+
+
 def _res_inputs():
     from pyunicorn.core import ResNetwork
     R = V(families.RES[1])
@@ -212,6 +224,7 @@ TARGETS = {
                           _fam_calls("interacting", {"A": 1, "W": 1, "LA": 1})),
     "interacting_disc": Target("interacting_disc", lambda: _net_inputs(False, 2, _inter_cls()),
                                _fam_names("interacting"), _fam_calls("interacting", {"A": 2, "W": 1, "LA": 1})),
+    "geonetwork": Target("geonetwork", _geo_inputs, _fam_names("geonetwork"), _fam_calls("geonetwork", {"LA": 1})),
     "rp": Target("rp", lambda: _rp_inputs("RecurrencePlot"), _fam_names("rp"), _fam_calls("rp", {})),
     "rn": Target("rn", lambda: _rp_inputs("RecurrenceNetwork"), _fam_names("rn"), _fam_calls("rn", {})),
     "crp": Target("crp", lambda: _rp_inputs("CrossRecurrencePlot"), _fam_names("crp"), _fam_calls("crp", {})),
@@ -594,6 +607,12 @@ def _rebuild(target, inputs):
         return ClimateNetwork(families._grid(), inputs["similarity_measure"], threshold=0.4, **kw)
     if target == "resnetwork":
         return ResNetwork(inputs["resistances"], **kw)
+    if target == "geonetwork":
+        from pyunicorn.core import GeoGrid, GeoNetwork
+        net = GeoNetwork(GeoGrid(inputs["time_seq"], inputs["lat"], inputs["lon"], silence_level=3),
+                         adjacency=inputs["adjacency"], node_weight_type="surface", **kw)
+        net.set_link_attribute("w", inputs["link_attribute"])
+        return net
     if target == "eventseries":
         from pyunicorn.eventseries import EventSeries
         return EventSeries(inputs["events"], timestamps=inputs["timestamps"], taumax=3.0, lag=0.0)
@@ -671,7 +690,7 @@ def _nontrivial(rec):
     return rec.get("skip") == 0 and len(rec["after"]) >= 2
 
 
-QUICK_TARGETS = ["network", "rp", "rn", "jrp", "surrogates", "climate", "resnetwork", "tsonis", "mutualinfo",
+QUICK_TARGETS = ["network", "geonetwork", "rp", "rn", "jrp", "surrogates", "climate", "resnetwork", "tsonis", "mutualinfo",
                  "spearman", "isrn", "eventseries", "interacting_disc", "havlin", "hilbert", "partialcorr",
                  "mutualinfo_anom", "spearman_anom", "tsonis_anom", "havlin_anom", "ccn", "escn"]
 
